@@ -125,4 +125,40 @@ def handleC10Disp (fields : List String) : String :=
     | _, _ => "bad-input"
   | _ => "bad-input"
 
+def parseLead (s : String) : Option Lead :=
+  match s with
+  | "n" => some .none | "i" => some .int | "s" => some .str | "I" => some .sliceInt
+  | "S" => some .sliceStr | "ci" => some .constInt | "cs" => some .constStr | "g" => some .genSlice
+  | _ => none
+
+def parseLCand (s : String) : Option LCand :=
+  match s.splitOn ":" with
+  | [id, lead, k, r, g] => do
+    pure { id := ← id.toNat?, lead := ← parseLead lead, k := ← k.toNat?, r := ← r.toNat?, generic := g = "1" }
+  | _ => none
+
+def parseLCall (s : String) : Option LCall :=
+  match s.splitOn ":" with
+  | [lead, form, k, r] => do
+    let l ← parseLead lead
+    let k ← k.toNat?
+    let r ← r.toNat?
+    match form with
+    | "expr" => pure ⟨l, .expr k r⟩
+    | "block" => pure ⟨l, .block k⟩
+    | "lit" => pure ⟨l, .lit k r⟩
+    | _ => none
+  | _ => none
+
+/-- `c10lam cands call` → `R=<id|none> U=<number of accepting candidates>` -/
+def handleC10Lam (fields : List String) : String :=
+  match fields with
+  | cands :: call :: _ =>
+    match mapM? parseLCand (splitList cands "|"), parseLCall call with
+    | some cs, some c =>
+      let r := match ldispatch cs c with | some x => toString x.id | none => "none"
+      s!"R={r} U={lacceptors cs c}"
+    | _, _ => "bad-input"
+  | _ => "bad-input"
+
 end GopModel.Driver
